@@ -271,6 +271,12 @@ def run(ctx):
         # function and linear-knob tasks (name- and ref-identified) in a third of the managers
         c = mc.gen_history(ctx.rng, ["assign", "mixed", "dag", "frozen", "windows", "mixed"][i % 6], nofun=(i % 6 != 5), attrdict=(i % 2 == 0),
                            values="mixed" if i % 3 == 2 else "int")
+        for op in c["ops"]:
+            # a LinearKnob pairs weights with targets by position; when the targets are given as a SET the pairing follows the
+            # set's iteration order, which a pickle round trip need not preserve (observed on the unchanged tree, seed 3):
+            # outside C12's quantifier (managers reachable by assignment histories), so the pickled knobs get list targets
+            if op[0] == "regknob" and len(op) > 4:
+                op[4] = "list"
         lv = mc.leaves_of(c)
         if ctx.rng.random() < 0.3:          # the state at the moment of pickling: an update that failed half-way (stale dependants,
             t = ctx.rng.choice(lv)          # a LinearKnob whose remembered source value lags behind)
